@@ -33,22 +33,45 @@ CONST0 = 1000.5
 # ------------------------------------------------------------------------------------------------
 # values: opaque identifiers, transported as ints (mapping of plain objects), tensors or Points columns
 
+# Tensor values are identified by CONTENT (dtype, shape, bytes): a value the harness created is registered
+# under its identifier, any other tensor that shows up (a stale copy, a converted or narrowed value ...) gets
+# a fresh identifier >= 100000.  "bound to the value stored under that name" therefore means: same dtype,
+# same shape, bit-identical entries.
+REG = {}
+NEXT = [100000]
+DESC = {}
+
+
+def tkey(t):
+    a = t.detach().cpu().contiguous()
+    return (str(a.dtype), tuple(a.shape), a.numpy().tobytes())
+
+
+def register(t, i):
+    REG[tkey(t)] = int(i)
+    return t
+
+
 def mkval(i, mode):
     if mode == "int":
         return int(i)
     import torch
-    return torch.full((1, 1), float(i))
+    return register(torch.full((1, 1), float(i)), i)
 
 
 def vid(v):
-    """identifier of a value (None if it is not one of ours)"""
+    """identifier of a value (None if it is neither an int nor a tensor)"""
     try:
         import torch
         if isinstance(v, torch.Tensor):
-            f = v.flatten()
-            if f.numel() == 0 or not bool((f == f[0]).all()):
-                return None
-            return int(f[0].item()) if float(f[0].item()).is_integer() else None
+            k = tkey(v)
+            if k not in REG:
+                REG[k] = NEXT[0]
+                NEXT[0] += 1
+            i = REG[k]
+            if i >= 100000:
+                DESC[i] = f"{str(v.dtype).replace('torch.', '')}{list(v.shape)}[{v.flatten()[0].item()!r}..]" if v.numel() else "empty"
+            return i
         if isinstance(v, bool) or not isinstance(v, int):
             return None
         return int(v)
@@ -56,9 +79,25 @@ def vid(v):
         return None
 
 
+def desc(i):
+    """readable form of an identifier in failure messages"""
+    return f"{i}<{DESC[i]}>" if i in DESC else str(i)
+
+
 def showval(v):
     i = vid(v)
     return str(i) if i is not None else f"<{type(v).__name__}>"
+
+
+def stored_slices(points, dims):
+    """what a Points object stores under every name NOW, cut out of the raw tensor by hand from the declared
+    dimensions (independent of Points.coordinates)"""
+    t = points.as_tensor
+    out, start = {}, 0
+    for name, dim in dims:
+        out[name] = t[..., start:start + dim]
+        start += dim
+    return out
 
 
 def showdict(d):
@@ -80,6 +119,10 @@ class State:
         self.hits = []       # (fn, bindings, token) per invocation of a probe
         self.origin = {}     # wrapper index -> ("wf"|"we"|"wc"|"rw"|"pe"|"dc", source index or None)
         self.tok = itertools.count(5000)
+        self.carriers = []   # Points objects that live through the history: dict(obj=Points, dims=[(name, dim)])
+        self.consts = {}     # fn -> the constant object as created
+        self.constkey = {}   # content key of a tensor constant -> fn
+        REG.clear(); DESC.clear(); NEXT[0] = 100000
 
     # -- probes ------------------------------------------------------------------------------
     def _hit(self, fn, kw):
@@ -92,17 +135,47 @@ class State:
         self.hits.append((fn, kw, token))
         return token
 
-    def make_probe(self, fn, names, dflts, how="def"):
-        """how: "def" plain function | "method" bound method | "object" instance with __call__"""
+    def make_probe(self, fn, names, dflts, how="def", inner=None):
+        """how: "def" plain function | "method" bound method | "object" instance with __call__ | "lambda" |
+        "closure" (function made by a factory, no __wrapped__) | "wraps-same" / "wraps-diff" (decorated with
+        functools.wraps; the decorated function has the same / another signature `inner`) | "partial"
+        (functools.partial that binds a leading positional parameter).
+        The declared parameters are always those of the callable that is handed in and invoked."""
+        import functools
         n, m = len(names), len(dflts)
         dvals = [mkval(v, self.mode) for v in dflts]
         params = [names[i] if i < n - m else f"{names[i]}=_D[{i - (n - m)}]" for i in range(n)]
         body = ", ".join(f"{p}={p}" for p in names)
         env = {"_D": dvals, "_hit": self._hit}
-        if how == "def":
+        kwnames, kwd = [], {}
+        if how == "kwonly":
+            kwnames, kwd = list(inner[0]), dict((a, b) for a, b in inner[1])
+            env["_K"] = {k: mkval(v, self.mode) for k, v in kwd.items()}
+            params = params + ["*"] + [f"{k}=_K['{k}']" if k in kwd else k for k in kwnames]
+            body = ", ".join(f"{p}={p}" for p in list(names) + kwnames)
+        if how in ("def", "closure", "kwonly"):
             src = f"def probe_{fn}({', '.join(params)}):\n    return _hit({fn}, dict({body}))\n"
+            if how == "closure":
+                src = f"def _make():\n    _fn = {fn}\n" + "".join("    " + l + "\n" for l in src.replace(f"_hit({fn},", "_hit(_fn,").splitlines()) \
+                      + f"    return probe_{fn}\nprobe_{fn} = _make()\n"
             exec(src, env)
             f = plain = env[f"probe_{fn}"]
+        elif how == "lambda":
+            f = plain = eval(f"lambda {', '.join(params)}: _hit({fn}, dict({body}))", env)
+            f.__name__ = f"probe_{fn}"
+        elif how in ("wraps-same", "wraps-diff"):
+            inames, idef = (names, m) if how == "wraps-same" or inner is None else inner
+            iparams = [inames[i] if i < len(inames) - idef else f"{inames[i]}=None" for i in range(len(inames))]
+            src = (f"def probe_{fn}({', '.join(iparams)}):\n    return None\n"
+                   f"def outer_{fn}({', '.join(params)}):\n    return _hit({fn}, dict({body}))\n")
+            exec(src, env)
+            plain = env[f"outer_{fn}"]
+            f = functools.wraps(env[f"probe_{fn}"])(plain)       # __name__ = probe_<fn>, __wrapped__ = inner
+        elif how == "partial":
+            src = f"def probe_{fn}({', '.join(['_bound'] + params)}):\n    return _hit({fn}, dict({body}))\n"
+            exec(src, env)
+            plain = env[f"probe_{fn}"]
+            f = functools.partial(plain, 0)
         else:
             meth = f"probe_{fn}" if how == "method" else "__call__"
             src = (f"class Holder_{fn}:\n    __name__ = 'probe_{fn}'\n"
@@ -111,15 +184,31 @@ class State:
             holder = env[f"Holder_{fn}"]()
             plain = getattr(type(holder), meth)
             f = getattr(holder, meth) if how == "method" else holder
-        self.sig[fn] = (list(names), list(dflts))
+        self.sig[fn] = (list(names) + kwnames, list(dflts), kwnames, kwd)
         self.probe[fn] = plain
         return f
+
+    def make_const(self, fn, kind="float"):
+        import torch
+        if kind == "t32":
+            c = torch.tensor([[CONST0 + fn, CONST0 + fn]])
+        elif kind == "t64":
+            c = torch.tensor([[CONST0 + fn + 1.0 / 3.0]], dtype=torch.float64)     # not representable in float32
+        else:
+            c = CONST0 + fn
+        self.consts[fn] = c
+        if kind != "float":
+            self.constkey[tkey(c)] = fn
+        return c
 
     def fnid(self, x):
         try:
             if callable(x):
-                return int(x.__name__.split("_")[1])
+                name = x.__name__ if hasattr(x, "__name__") else x.func.__name__      # functools.partial
+                return int(name.split("_")[1])
             import torch
+            if isinstance(x, torch.Tensor) and tkey(x) in self.constkey:
+                return self.constkey[tkey(x)]
             val = float(x.flatten()[0]) if isinstance(x, torch.Tensor) else float(x)
             r = val - CONST0
             return int(r) if r.is_integer() else f"<{val}>"
@@ -165,7 +254,7 @@ class State:
 def env_snapshot(env):
     if isinstance(env, dict):
         return [(k, showval(v), id(v)) for k, v in env.items()]
-    return (list(env.space.keys()), env.as_tensor.tolist())   # Points
+    return (list(env.space.keys()), str(env.as_tensor.dtype), env.as_tensor.tolist())   # Points
 
 
 def build_env(st, pairs, as_points):
@@ -176,8 +265,11 @@ def build_env(st, pairs, as_points):
         cols = []
         for name, v in pairs:
             cols += [float(v)] * dims[name]
-        return tp.spaces.Points(torch.tensor([cols]), tp.spaces.Space(dims))
-    return {name: mkval(v, st.mode) for name, v in pairs}
+        pts = tp.spaces.Points(torch.tensor([cols]), tp.spaces.Space(dims))
+        for (name, v), t in zip(pairs, stored_slices(pts, list(dims.items())).values()):
+            register(t, v)
+        return pts, list(dims.items())
+    return {name: mkval(v, st.mode) for name, v in pairs}, None
 
 
 # ------------------------------------------------------------------------------------------------
@@ -201,7 +293,8 @@ def execute(case, gen=None):
             break
         op = ops[i]
         out = run_op(st, op, i, problems)
-        lines.append(out + " # " + st.digest())
+        if out is not None:          # `np` / `pt` act on the user's own Points objects only: no model counterpart
+            lines.append(out + " # " + st.digest())
         i += 1
     # the constructor's own default containers (shared by every later construction in the process)
     after = st.snapshot()
@@ -247,13 +340,22 @@ def run_op(st, op, idx, problems):
     env_obj = None
     where = f"op {idx} {json.dumps(op)}"
     try:
+        if kind == "np":
+            import torch
+            _, dims, dtype, data = op
+            pts = st.tp.spaces.Points(torch.tensor(data, dtype=getattr(torch, dtype)), st.tp.spaces.Space(dict((a, b) for a, b in dims)))
+            st.carriers.append(dict(obj=pts, dims=[(a, b) for a, b in dims]))
+            return None
+        if kind == "pt":
+            carrier_transform(st, op)
+            return None
         if kind == "nd":
             st.ud.append({k: mkval(v, st.mode) for k, v in op[1]})
             out = f"U{len(st.ud) - 1}"
             before[f"user dict {len(st.ud) - 1}"] = [(k, showval(v)) for k, v in st.ud[-1].items()]
         elif kind == "wf":
             _, fn, names, dflts = op[:4]
-            f = st.make_probe(fn, names, dflts, op[4] if len(op) > 4 else "def")
+            f = st.make_probe(fn, names, dflts, op[4] if len(op) > 4 else "def", op[5] if len(op) > 5 else None)
             before[f"user function {fn}"] = st.snapshot()[f"user function {fn}"]
             w = st.cls(f)
             st.ws.append(w); st.origin[len(st.ws) - 1] = ("wf", None)
@@ -261,17 +363,23 @@ def run_op(st, op, idx, problems):
             # oracle: required names / declared defaults of a freshly wrapped function
             n, m = len(names), len(dflts)
             want_req, want_def = names[:n - m], {names[n - m + j]: dflts[j] for j in range(m)}
+            want_opt = names[n - m:]
+            if len(op) > 5 and op[4] == "kwonly":
+                kwnames, kwd = op[5][0], dict((a, b) for a, b in op[5][1])
+                want_req = want_req + [k for k in kwnames if k not in kwd]
+                want_opt = want_opt + [k for k in kwnames if k in kwd]
+                want_def.update(kwd)
             try:
                 got_req, got_opt = list(w.necessary_args), list(w.optional_args)
                 got_def = {k: vid(v) for k, v in w.defaults.items()}
             except Exception as e:
                 got_req = got_opt = got_def = f"<{type(e).__name__}: {e}>"
-            if got_req != want_req or got_def != want_def or got_opt != names[n - m:]:
-                problems.append(f"{where}: def probe({', '.join(names[:n-m] + [f'{k}={v}' for k, v in want_def.items()])}) wrapped: "
+            if got_req != want_req or got_def != want_def or got_opt != want_opt:
+                problems.append(f"{where}: def probe(...) with required {want_req} and defaults {want_def} wrapped: "
                                 f"necessary_args={got_req} optional_args={got_opt} defaults={got_def}; "
                                 f"Python declares required={want_req} defaults={want_def}")
         elif kind == "wc":
-            w = st.cls(CONST0 + op[1])
+            w = st.cls(st.make_const(op[1], op[2] if len(op) > 2 else "float"))
             st.ws.append(w); st.origin[len(st.ws) - 1] = ("wc", None)
             out = f"w{len(st.ws) - 1}"
         elif kind == "we":
@@ -297,8 +405,16 @@ def run_op(st, op, idx, problems):
             w = st.ws[op[1]]
             pairs = op[2]
             as_points = kind == "ca" and len(op) > 3 and op[3] == "points"
-            env_obj = build_env(st, pairs, as_points)
-            env_map = dict(env_obj.coordinates) if as_points and pairs else env_obj
+            if kind == "ca" and len(op) > 4 and op[3] == "carrier":
+                # a Points object with a history: what it stores NOW is cut out by hand; the identifiers of
+                # these values are what the model is told the environment contains
+                car = st.carriers[op[4]]
+                env_obj = car["obj"]
+                env_map = stored_slices(env_obj, car["dims"])
+                op[2] = pairs = [[name, vid(t)] for name, t in env_map.items()]
+            else:
+                env_obj, dims = build_env(st, pairs, as_points)
+                env_map = stored_slices(env_obj, dims) if dims is not None else env_obj
             defaults_before = dict(w.defaults)
             env_before = env_snapshot(env_obj)
             exc = None
@@ -366,6 +482,31 @@ def run_op(st, op, idx, problems):
     return out
 
 
+def carrier_transform(st, op):
+    """the user works with an own Points object between two calls"""
+    import torch
+    _, k, what = op[:3]
+    car = st.carriers[k]
+    pts = car["obj"]
+    if what == "to32":
+        pts.to(torch.float32)
+    elif what == "to64":
+        pts.to(torch.float64)
+    elif what == "read":
+        repr(pts)
+        pts.coordinates
+    elif what == "reqgrad":
+        pts.requires_grad = True
+    elif what == "setitem":
+        row = st.tp.spaces.Points(torch.tensor([op[3]], dtype=pts.as_tensor.dtype), pts.space)
+        pts[0:1] = row
+    elif what == "slice":
+        a, b = op[3]
+        st.carriers.append(dict(obj=pts[a:b], dims=list(car["dims"])))
+    else:
+        raise common.HarnessTrouble(f"unknown carrier transformation {op}")
+
+
 def batched_value(v, n):
     import torch
     return torch.tensor([[float(v * 1000 + i)] for i in range(n)])
@@ -412,7 +553,7 @@ def run_vectorized(st, op, hits0, problems, where):
             missing = p
             break
     if exc is not None:
-        if isinstance(exc, AssertionError):
+        if isinstance(exc, AssertionError) or (missing is not None and not new_hits):
             out = "e:missing"
         elif isinstance(exc, ValueError) and not P:
             out = "e:valueerror"        # max() of an empty sequence: a function without parameters (as coded)
@@ -443,11 +584,25 @@ def judge_eval(st, w, kind, op, env, defaults_before, exc, res, new_hits, proble
         if exc is not None:
             problems.append(f"{where}: constant wrapper raised {type(exc).__name__}: {exc}")
             return f"e:raised:{type(exc).__name__}"
+        # the value of a constant wrapper is the wrapped constant (a tensor keeps dtype and entries; DomainUserFunction
+        # hands a plain number out as a float32 tensor)
+        import torch
+        c = w.fun
+        if kind == "pe" or not isinstance(w, st.mod.DomainUserFunction):
+            ok = res is c
+        elif isinstance(c, torch.Tensor):
+            ok = isinstance(res, torch.Tensor) and res.dtype == c.dtype and res.shape == c.shape and torch.equal(res, c)
+        else:
+            ok = isinstance(res, torch.Tensor) and res.dtype == torch.float32 and res.numel() == 1 and float(res) == float(c)
+        if not ok:
+            problems.append(f"{where}: the constant wrapper of {c!r} handed out {res!r}: not the wrapped constant (same dtype, same entries)")
         return f"k{st.fnid(res)}"
     P = declared(st, w)
     want = expected_bindings(st, w, env, defaults_before)
     if exc is not None:
-        out = "e:missing" if isinstance(exc, AssertionError) else f"e:raised:{type(exc).__name__}"
+        # "rejected" = any exception before the function is invoked while a required name really is missing
+        rejected = isinstance(exc, AssertionError) or (want[0] == "reject" and not new_hits)
+        out = "e:missing" if rejected else ("e:typeerror" if isinstance(exc, TypeError) else f"e:raised:{type(exc).__name__}")
         if new_hits:
             problems.append(f"{where}: raised {type(exc).__name__} after the user function had been invoked")
         if want[0] == "bind":
@@ -475,8 +630,9 @@ def judge_eval(st, w, kind, op, env, defaults_before, exc, res, new_hits, proble
         problems.append(f"{where}: required name {want[1]!r} is neither supplied ({sorted(env)}) nor a default "
                         f"({sorted(defaults_before)}) but the function was invoked with {got}")
     elif got != want[1] or list(kw) != P:
-        problems.append(f"{where}: the function received {got}; by name it must receive {want[1]} "
-                        f"(supplied {dict((k, vid(v)) for k, v in env.items())}, defaults {dict((k, vid(v)) for k, v in defaults_before.items())})")
+        problems.append(f"{where}: the function received {dict((k, desc(v)) for k, v in got.items())}; by name it must receive "
+                        f"{dict((k, desc(v)) for k, v in want[1].items())} (supplied {dict((k, desc(vid(v))) for k, v in env.items())}, "
+                        f"defaults {dict((k, vid(v)) for k, v in defaults_before.items())})")
     # the function's value is what comes back
     ok = False
     try:
@@ -500,6 +656,7 @@ class Gen:
         self.fn = itertools.count(0)
         self.val = itertools.count(1)
         self.pending = []
+        self.car_for = []     # carrier index -> wrapper it was built for
 
     def v(self):
         return next(self.val)
@@ -541,15 +698,81 @@ class Gen:
             kinds = ["wf"] * 2 + ["wc", "we", "nd", "rw", "dc", "dc"] + ["ca"] * 6 + ["pe"] * 5 + ["sd"] * 3 + ["rd"]
             if self.mode == "tensor" and st.cls.__name__ == "UserFunction":
                 kinds += ["cv"] * 3
+            if self.mode != "int" and any(callable(w.fun) for w in st.ws):
+                kinds += ["np"] * 2
+                if st.carriers:
+                    kinds += ["pt"] * 5 + ["cc"] * 3
         kind = rng.choice(kinds)
         if kind == "cv" and not callable(st.ws[-1].fun) and all(not callable(w.fun) for w in st.ws):
             kind = "ca"
         if kind == "wf":
             names, dflts = self.signature()
-            how = rng.choice(["def"] * 6 + ["method", "object"])
-            return ["wf", next(self.fn), names, dflts] + ([how] if how != "def" else [])
+            how = rng.choice(["def"] * 5 + ["method", "object", "lambda", "closure", "wraps-same", "wraps-diff", "wraps-diff", "partial", "kwonly", "kwonly"])
+            op = ["wf", next(self.fn), names, dflts] + ([how] if how != "def" else [])
+            if how == "kwonly":
+                free = [p for p in self.pool if p not in names]
+                if not free:
+                    return op[:4]
+                kw = rng.sample(free, min(len(free), rng.choice([1, 1, 2, 3])))
+                op.append([kw, [[k, self.v()] for k in kw if rng.random() < 0.5]])
+            if how == "wraps-diff":
+                # the decorated (inner) function declares something else than the decorator's wrapper (outer)
+                style = rng.choice(["other", "fewer", "more", "defaults"])
+                if style == "fewer" and names:
+                    inner = [names[:-1], min(len(dflts), max(0, len(names) - 1))]
+                elif style == "more":
+                    extra = [p for p in self.pool if p not in names]
+                    inner = [names + extra[:1], len(dflts) + (1 if extra and dflts else 0)]
+                elif style == "defaults" and names:
+                    inner = [names, rng.choice([k for k in range(len(names) + 1) if k != len(dflts)])]
+                else:
+                    n2 = min(len(self.pool), rng.choice([1, 2, 3]))
+                    inner = [rng.sample(self.pool, n2), rng.randint(0, n2)]
+                op.append(inner)
+            return op
         if kind == "wc":
-            return ["wc", next(self.fn)]
+            ck = rng.choice(["float", "float", "t32", "t64"])
+            return ["wc", next(self.fn)] + ([ck] if ck != "float" else [])
+        if kind == "np":
+            cand = [i for i, w in enumerate(st.ws) if callable(w.fun)]
+            r = cand[-1] if rng.random() < 0.6 else rng.choice(cand)
+            names = [p for p, _ in self.env_for(st.ws[r], cover=0.93)]
+            if not names:
+                names = rng.sample(self.pool, 1)
+            dims = [[p, rng.choice([1, 1, 2])] for p in names]
+            width = sum(d for _, d in dims)
+            rows = rng.choice([1, 2, 3])
+            data = [[1000.0 * rng.choice([1, 1, 0.001]) + rng.random() / 3.0 for _ in range(width)] for _ in range(rows)]
+            self.car_for.append(r)
+            k = len(st.carriers)
+            self.pending = [["ca", r, [], "carrier", k]]
+            if rng.random() < 0.6:      # use it, convert / look at it, use it again
+                self.pending += [["pt", k, rng.choice(["to32", "to32", "to64", "read"])], ["ca", r, [], "carrier", k]]
+            return ["np", dims, rng.choice(["float64", "float64", "float32"]), data]
+        if kind in ("pt", "cc"):
+            k = len(st.carriers) - 1 if rng.random() < 0.6 else rng.randrange(len(st.carriers))
+            while len(self.car_for) < len(st.carriers):
+                self.car_for.append(self.car_for[-1] if self.car_for else 0)
+            r = self.car_for[k] if rng.random() < 0.75 else rng.randrange(nw)
+            call = ["ca", r, [], "carrier", k]
+            if kind == "cc":
+                return call
+            pts = st.carriers[k]["obj"]
+            whats = ["to32", "to32", "to64", "to64", "read", "slice"]
+            if not pts.requires_grad:
+                whats += ["setitem", "setitem", "reqgrad"]
+            what = rng.choice(whats)
+            op = ["pt", k, what]
+            if what == "setitem":
+                op.append([7.0 + rng.random() / 7.0 for _ in range(pts.as_tensor.shape[-1])])
+            if what == "slice":
+                a = rng.randrange(len(pts))
+                op.append([a, rng.randint(a + 1, len(pts))])
+                self.car_for.append(self.car_for[k])
+                call = ["ca", r, [], "carrier", len(st.carriers)]
+            if rng.random() < 0.75:
+                self.pending = [call]
+            return op
         if kind == "nd":
             ks = rng.sample(self.pool, rng.choice([0, 1, 2]))
             return ["nd", [[k, self.v()] for k in ks]]
@@ -639,6 +862,11 @@ def op_line(op):
     if k == "nd":
         return f"nd {d(op[1])}"
     if k == "wf":
+        if len(op) > 4 and op[4] in ("wraps-same", "wraps-diff"):
+            inames, idef = (op[2], len(op[3])) if op[4] == "wraps-same" or len(op) < 6 else op[5]
+            return f"wd {op[1]} {common.lst(op[2])} {common.lst(op[3])} {common.lst(inames)} {common.lst([0] * idef)}"
+        if len(op) > 5 and op[4] == "kwonly":
+            return f"wk {op[1]} {common.lst(op[2])} {common.lst(op[3])} {common.lst(op[5][0])} {d(op[5][1])}"
         return f"wf {op[1]} {common.lst(op[2])} {common.lst(op[3])}"
     if k == "wc":
         return f"wc {op[1]}"
@@ -649,7 +877,7 @@ def op_line(op):
     if k == "dc":
         return f"dc {op[1]}"
     if k in ("ca", "pe", "sd"):
-        return f"{k} {op[1]} {d(op[2])}"
+        return f"{k} {op[1]} {d(op[2])}"       # a call with a carrier: op[2] was filled in when it was executed
     if k == "cv":
         return f"cv {op[1]} {d(op[2])} {d(op[3])}"
     if k == "rd":
@@ -657,11 +885,41 @@ def op_line(op):
     raise common.HarnessTrouble(f"unknown op {op}")
 
 
+def model_ops(case):
+    return [op for op in case["ops"] if op[0] not in ("np", "pt")]
+
+
 def model_line(case):
-    return f"run {len(case['ops'])} " + " ".join(op_line(op) for op in case["ops"])
+    ops = model_ops(case)
+    return f"run {len(ops)} " + " ".join(op_line(op) for op in ops)
 
 
 CORPUS = [
+    # keyword-only parameters: positional defaults belong to the last POSITIONAL names, kw-only defaults to their own names
+    dict(cls="UserFunction", mode="int", ops=[["wf", 0, ["x", "y"], [1], "kwonly", [["z", "w"], [["z", 3]]]], ["ca", 0, [["w", 7], ["x", 5]]],
+                                              ["ca", 0, [["x", 5]]], ["pe", 0, [["w", 8]]], ["ca", 1, [["x", 9], ["z", 10]]]]),
+    # a Points object with a history: read, converted with .to(), written to, sliced between the calls
+    dict(cls="UserFunction", mode="tensor", ops=[
+        ["wf", 0, ["t", "x", "k"], [5]],
+        ["np", [["x", 2], ["t", 1], ["k", 1]], "float64", [[1000.1531276477092, 1000.2, 1000.3, 0.4], [1.1, 1.2, 1000.0000001, 1.4]]],
+        ["ca", 0, [], "carrier", 0], ["pt", 0, "to32"], ["ca", 0, [], "carrier", 0], ["pt", 0, "to64"], ["ca", 0, [], "carrier", 0],
+        ["pt", 0, "setitem", [7.25, 7.5, 7.125, 1 / 3]], ["ca", 0, [], "carrier", 0], ["pt", 0, "slice", [1, 2]], ["ca", 0, [], "carrier", 1],
+        ["pt", 1, "reqgrad"], ["pt", 1, "read"], ["pt", 1, "to32"], ["ca", 0, [], "carrier", 1]]),
+    dict(cls="DomainUserFunction", mode="points", ops=[
+        ["wf", 0, ["x", "t"], []], ["np", [["t", 1], ["q", 1], ["x", 2]], "float64", [[0.1, 0.2, 1 / 3, 2 / 3]]],
+        ["pt", 0, "read"], ["pt", 0, "to32"], ["ca", 0, [], "carrier", 0], ["pe", 0, [["t", 1]]], ["ca", 1, [], "carrier", 0]]),
+    # decorated functions: the parameters are those of the callable that is handed in (and invoked), not of __wrapped__
+    dict(cls="UserFunction", mode="int", ops=[
+        ["wf", 0, ["x", "t", "scale"], [3], "wraps-diff", [["x", "t"], 0]], ["ca", 0, [["scale", 1], ["t", 2], ["x", 4]]], ["ca", 0, [["x", 5], ["t", 6]]],
+        ["wf", 1, ["x", "t"], [7], "wraps-diff", [["x", "t"], 0]], ["ca", 1, [["x", 8]]], ["pe", 1, [["x", 9]]],
+        ["wf", 2, ["x"], [], "wraps-diff", [["x", "t"], 0]], ["ca", 2, [["t", 10], ["x", 11]]],
+        ["wf", 3, ["time", "pos"], [], "wraps-diff", [["x", "t"], 0]], ["ca", 3, [["pos", 12], ["time", 13]]],
+        ["wf", 4, ["a", "b"], [14], "wraps-same"], ["ca", 4, [["a", 15]]], ["wf", 5, ["a", "b"], [16], "partial"], ["ca", 5, [["a", 17]]], ["ca", 5, []],
+        ["wf", 6, ["a", "b"], [18], "lambda"], ["ca", 6, [["b", 19], ["a", 20]]], ["wf", 7, ["a"], [], "closure"], ["ca", 7, [["a", 21]]]]),
+    # constants are handed out as they are (a float64 tensor stays float64)
+    dict(cls="DomainUserFunction", mode="tensor", ops=[["wc", 0, "t64"], ["ca", 0, []], ["wc", 1, "t32"], ["ca", 1, [["x", 1]]], ["wc", 2], ["ca", 2, []],
+                                                       ["pe", 0, [["x", 2]]], ["dc", 0], ["ca", 3, []]]),
+    dict(cls="UserFunction", mode="int", ops=[["wc", 0, "t64"], ["ca", 0, []], ["pe", 0, []], ["dc", 0], ["ca", 1, []]]),
     # vectorize=True: row i of every batch-length value goes to invocation i, other values are passed whole
     dict(cls="UserFunction", mode="tensor", ops=[["wf", 0, ["a", "b", "c"], [11]], ["cv", 0, [["b", 6], ["a", 5]], [[5, 3], [6, 1], [11, 1]]],
                                                  ["cv", 0, [["a", 7], ["c", 8], ["b", 9]], [[7, 2], [8, 2], [9, 2]]], ["cv", 0, [["a", 5]], [[5, 2]]],
@@ -705,7 +963,10 @@ def nontrivial(case, lines):
 
 
 def classify(rep, case, lines):
-    for op, l in zip(case["ops"], lines):
+    for op in case["ops"]:
+        if op[0] == "pt":
+            rep.count("Points carrier:" + op[2])
+    for op, l in zip(model_ops(case), lines):
         rep.count("op:" + op[0])
         out = l.split(" # ")[0]
         tag = out[0] if out[0] in "wvkuUb" else out
@@ -714,7 +975,9 @@ def classify(rep, case, lines):
         if op[0] == "cv" and tag == "b":
             rep.count("vectorized batch size " + out.split("/")[1].split("[")[0])
         if op[0] == "ca" and len(op) > 3:
-            rep.count("call with Points")
+            rep.count("call with Points" + (" that has a history" if op[3] == "carrier" else ""))
+        if op[0] == "wc":
+            rep.count("constant kind:" + (op[2] if len(op) > 2 else "float"))
         if op[0] == "wf":
             rep.count(f"signature n={len(op[2])} defaults={len(op[3])}")
             rep.count("callable kind:" + (op[4] if len(op) > 4 else "def"))
@@ -746,7 +1009,7 @@ def run(ctx, rep, cases=None):
                 rep.fail(msg, c)
         raise
     for case, lines, problems, reply in zip(done, impl, probs, replies):
-        model = reply.split(" ; ") if case["ops"] else []
+        model = reply.split(" ; ") if model_ops(case) else []
         rep.case(case["ops"], nontrivial(case, lines),
                  sample=dict(case=case, implementation=lines[-1] if lines else "", model=model[-1] if model else ""),
                  kind=case["cls"] + case["mode"])
@@ -754,7 +1017,7 @@ def run(ctx, rep, cases=None):
         if lines != model:
             k = next((i for i, (a, b) in enumerate(zip(lines, model)) if a != b), min(len(lines), len(model)))
             rep.disagree("history of wrapper operations: drivers/C13.lean `run` (TPV.UserFun.step) vs torchphysics.utils.user_fun",
-                         dict(case, first_difference_at_op=k),
+                         dict(case, first_difference_at_model_op=k),
                          lines[k] if k < len(lines) else "<no line>", model[k] if k < len(model) else "<no line>")
         for msg in problems:
             rep.fail(msg, shrink(case, msg) if len(rep.failures) < 5 else case)
@@ -786,7 +1049,7 @@ def shrink(case, msg):
         return case
     i = len(ops) - 2
     while i >= 0:
-        if ops[i][0] in ("ca", "cv", "sd", "rd"):      # removing them does not renumber wrappers or dicts
+        if ops[i][0] in ("ca", "cv", "sd", "rd", "pt"):      # removing them does not renumber wrappers, dicts or carriers
             cand = ops[:i] + ops[i + 1:]
             if still_fails(cand):
                 ops = cand
